@@ -12,6 +12,7 @@ import (
 	"strings"
 	"sync"
 	"sync/atomic"
+	"syscall"
 	"time"
 
 	regexp2 "github.com/dlclark/regexp2/v2"
@@ -130,6 +131,17 @@ type stepObs struct {
 	// for timing suspects: by how much the window was missed; such a suspect is dropped when the
 	// scheduler overshoot measured during the same run is at least that large
 	missedBy time.Duration
+	// CPU time the process got during the step and the step's wall time: a single spinning match
+	// that got much less CPU than wall time was kept off the processor by other load
+	cpu, wall time.Duration
+}
+
+func processCPU() time.Duration {
+	var ru syscall.Rusage
+	if syscall.Getrusage(syscall.RUSAGE_SELF, &ru) != nil {
+		return 0
+	}
+	return time.Duration(ru.Utime.Nano() + ru.Stime.Nano())
 }
 
 func timedMatch(d time.Duration, in []rune) (time.Duration, error) {
@@ -188,6 +200,7 @@ func runTimedHistory(h []tStep, tol time.Duration) (obs []stepObs, snapshots []s
 	curPeriod := clockPeriod
 	for _, s := range h {
 		o := stepObs{step: s}
+		cpu0, wall0 := processCPU(), time.Now()
 		switch s.kind {
 		case "F":
 			note(s.d)
@@ -473,6 +486,7 @@ func runTimedHistory(h []tStep, tol time.Duration) (obs []stepObs, snapshots []s
 				}
 			}
 		}
+		o.cpu, o.wall = processCPU()-cpu0, time.Since(wall0)
 		cur, end, running, _ := regexp2.VerifClockSnapshot()
 		snapshots = append(snapshots, fmt.Sprintf("%s: current=%d clockEnd=%d running=%v", s, cur, end, running))
 		obs = append(obs, o)
@@ -501,7 +515,7 @@ func fixedHistories() [][]tStep {
 		{C(100), Q(5000), I(20), C(1), I(250), T(20), T(50), T(120), T(20), T(50), T(20), T(120), T(50), F(50, 0)},
 		// and raised: the window widens by two periods
 		{T(20), C(30), T(50), T(120), Q(5000), I(5), C(1), I(100), T(20), T(50)},
-		{T(20), Qmax, T(50), S, T(20)}, // a timeout one nanosecond below "never"
+		{T(20), Qmax, T(50), S, T(20)},     // a timeout one nanosecond below "never"
 		{F(50, 2), T(20), F(20, 3), Q(50)}, // forward progress through a program without a single backward jump
 		// a negative check period (the clock then never sleeps): timeouts must still fire
 		{C(-1), T(50), Q(50), T(20), F(50, 2), C(1), I(20), T(20)},
@@ -514,14 +528,14 @@ func fixedHistories() [][]tStep {
 		{Q(50), I(2500), G, N(2, 5000), Q(50)},      //
 		{T(20), S, I(300), N(4, 50), T(50)},         // ... on a stopped clock
 		{T(120), N(3, 50), I(300), N(2, 50), Q(50)}, // ... on a running clock
-		{M(3), Q(50)},                       // deadlines 10 ms and 1.5 s handed out together on a clock that never ran
-		{T(20), S, M(4), T(20)},             // ... on a stopped clock
-		{T(20), I(1300), G, M(2), Q(50)},    // ... on a clock that ran out
-		{T(120), M(3)},                      // ... on a running clock
-		{T(20), T(50), T(120)},              // back to back
-		{T(20), I(5), T(20), Q(50)},         // short idle
-		{T(20), I(1300), G, T(20), Q(5000)}, // idle longer than timeout + slop: clock gone, restarted on demand
-		{Q(50), I(1300), G, Q(50), T(50)},   // quick match after the clock has stopped with a stale time value
+		{M(3), Q(50)},                               // deadlines 10 ms and 1.5 s handed out together on a clock that never ran
+		{T(20), S, M(4), T(20)},                     // ... on a stopped clock
+		{T(20), I(1300), G, M(2), Q(50)},            // ... on a clock that ran out
+		{T(120), M(3)},                              // ... on a running clock
+		{T(20), T(50), T(120)},                      // back to back
+		{T(20), I(5), T(20), Q(50)},                 // short idle
+		{T(20), I(1300), G, T(20), Q(5000)},         // idle longer than timeout + slop: clock gone, restarted on demand
+		{Q(50), I(1300), G, Q(50), T(50)},           // quick match after the clock has stopped with a stale time value
 		{T(50), I(2500), G, Q(50), I(300), T(20)},
 		{T(20), S, T(20), Q(50)},     // explicit stop, then restart
 		{S, S, T(50)},                // stop with nothing running
@@ -583,6 +597,8 @@ type c14Obs struct {
 	Overshoot int64    `json:"overshoot_ns"`
 	// timing misses not counted because the overshoot measured in the same run was as large
 	Discounted int `json:"discounted"`
+	// timing misses of a single match that got less than 70 % of a processor during the step
+	Starved int `json:"starved"`
 }
 
 func allHistories(seed int64, quick bool) [][]tStep {
@@ -633,6 +649,13 @@ func c14ChildMain(spec string) int {
 			obs[i].err += fmt.Sprintf(" (window missed by %v, scheduler overshoot %v: not counted)", obs[i].missedBy, over)
 			obs[i].suspect = ""
 			out.Discounted++
+		} else if k := obs[i].step.kind; obs[i].missedBy > 0 && (k == "T" || k == "F") && obs[i].cpu > 0 && obs[i].cpu*10 < obs[i].wall*7 {
+			// a late return of ONE spinning match that got less than 70 % of a processor during the
+			// step: other load kept it off the CPU, the clock cannot be blamed (a timeout that really
+			// fires late keeps the processor busy meanwhile)
+			obs[i].err += fmt.Sprintf(" (window missed by %v, but the step got %v of CPU in %v of wall time: not counted)", obs[i].missedBy, obs[i].cpu, obs[i].wall)
+			obs[i].suspect = ""
+			out.Starved++
 		}
 	}
 	for _, o := range obs {
@@ -723,6 +746,9 @@ func runC14(r *core.Run) int {
 			for k := 0; k < o.Discounted; k++ {
 				l.Inconclusive("timing-miss-within-measured-overshoot")
 			}
+			for k := 0; k < o.Starved; k++ {
+				l.Inconclusive("timing-miss-under-cpu-starvation")
+			}
 		}
 		if o != nil && hi < 2 {
 			var lat []string
@@ -779,6 +805,6 @@ func runC14(r *core.Run) int {
 	r.Extras["bounds"] = map[string]any{"histories": len(histories), "clock_period": clockPeriod.String(), "window": fmt.Sprintf("[d-%v, d+%v] (+5ms per concurrent match)", earlySlack, lateSlack), "timeouts": "20/50/120 ms", "idles": "5 ms, 300 ms, 1.3 s, 2.5 s", "isolation": "every history runs in its own child process under a watchdog"}
 	return r.Finish(
 		"histories of timed catastrophic matches T(d) through ten entry points (FindRunesMatch, FindStringMatch, MatchString, MatchRunes, Replace, ReplaceFunc, Split, FindAllStringIndex, FindNextMatch, FindStringMatchStartingAt; must fail with a timeout inside [d-5ms, d+40ms]), timed quick matches Q(d) (must not report a timeout), idle gaps shorter and longer than timeout + the clock's 1 s slop (after the long ones the clock goroutine must be gone and timeouts must still fire), StopTimeoutClock calls (must return and leave no clock goroutine) concurrent timed matches with different deadlines P(k), N(k): k quick matches with a generous timeout whose deadline computations are held at the hook point until all have looked at the clock (none may report a timeout), F(d): a match that spends a second in forward progress without ever backtracking, once as a counted loop and once written out as 4,000 look-aheads in a row without any backward jump (must time out like T), C(p): SetTimeoutCheckPeriod while the clock runs (after one old period deadlines must be honoured at the new precision; the window widens by two periods; a negative period must not switch timeouts off), Q(max): a timeout of MaxInt64-1 ns (must not fire), R(k): a quick match held between its two lock-free clock reads while k-1 others run to completion, and M(k): one 1.5 s and k-1 10 ms deadlines computed together (the hook point between the unlocked look at the clock's end and its locked extension holds the long one until the others arrive, then lets it go first) on clocks that never ran, were stopped, ran out or are running, with a 1 ms clock period; each history runs in a fresh child process under a watchdog (a match whose timeout never fires cannot hang the check); 34 hand-ordered histories covering every predecessor/successor pair that matters plus seeded random ones; evaluation = one step; non-trivial = distinct history",
-		[]string{"wall-clock verdicts: a miss is a suspect, re-executed 3 times in fresh processes with scheduler overshoot measured; a timing miss counts only if it exceeds twice the overshoot measured in the same run (+5 ms); violation only if reproduced 3/3, otherwise inconclusive", "millisecond-level accuracy is not claimed"},
+		[]string{"wall-clock verdicts: a miss is a suspect, re-executed 3 times in fresh processes with scheduler overshoot measured; a timing miss counts only if it exceeds twice the overshoot measured in the same run (+5 ms) and, for a single spinning match, only if the process got at least 70 % of a processor during the step (getrusage against wall time); violation only if reproduced 3/3, otherwise inconclusive", "millisecond-level accuracy is not claimed"},
 		map[string]int64{"evaluations": 40, "distinct_nontrivial": 10, "step_T": 10, "step_G": 3, "step_S": 3})
 }
